@@ -991,8 +991,9 @@ class TypeEngine:
         :return: (usim callees, external descriptors ``(kind, name, ...)``)
         """
         func = call.func
-        ftype = self.expr_type(func, frame) if not (
-            isinstance(func, ast.Name) and func.id == 'super') else UNKNOWN
+        if isinstance(func, ast.Name) and func.id == 'super':
+            return [], [('extfn', 'super')]
+        ftype = self.expr_type(func, frame)
         callees, externals = [], []
         for term in sorted(ftype, key=repr):
             kind = term[0]
